@@ -1412,3 +1412,8 @@ mod tests {
         quickcheck(prop as fn(_, _))
     }
 }
+
+#[cfg(kani)]
+pub(crate) mod verif {
+    include!(concat!(env!("LIBP2P_VERIF"), "/hooks/mplex_io.rs"));
+}
